@@ -388,7 +388,7 @@ func (f *Frame) applyContract(fc *FuncContract, name string, fn *ssa.Function, s
 	if i := strings.LastIndex(short, "."); i >= 0 {
 		short = short[i+1:]
 	}
-	if f.top && f.fc != nil && f.fc.AssumePre {
+	if f.top && f.fc != nil && (f.fc.AssumePre || (e.caseC != nil && e.caseC.AssumePre)) {
 		// the function's contract asks for callee preconditions to be assumed, not checked (listed as an assumption)
 		e.note(fmt.Sprintf("%s: preconditions of callee %s are assumed, not checked", e.qual(f.fn), name))
 		// unlabelled requires clauses (object invariants) are assumed; labelled ones are still checked
